@@ -5,7 +5,7 @@ import copy
 
 import netaddr
 
-from props.c07 import Family, ip6, ip4, caddr
+from props.c07 import Family, ip6, ip4, caddr, size_targets, fill_sizes
 from props.c07_vpn import rd_text, crd, rd_boundaries, rnd_rd, LABELS
 
 K_ESI3 = 'C07-evpn-esi-type-3-local-discriminator-width'
@@ -110,6 +110,28 @@ class Evpn(Family):
         add('reach', [route(3)], addr(True, low=True))
         for _ in range(300 if ctx.thorough else 40):
             add(rng.choice(['reach', 'reach', 'unreach']), [route(rng.randrange(1, 5)) for _ in range(rng.choice([1, 2, 3, 6]))], addr())
+        # ---- encoded-size boundaries: attribute value length.  Encoded route sizes (type, length, value):
+        # type 3 with IPv4/IPv6 originator 19/31, type 1 27, type 4 25/37, type 2 (one label) 35/39/51
+        def sized_route(k):
+            e = esi(rng.choice([0, 1, 2, 4, 5]))
+            if k in (19, 31):
+                return route(3, None, None, addr(k == 31))
+            if k == 27:
+                return route(1, e, None, None, [rng.randrange(1, 2 ** 20)])
+            if k in (25, 37):
+                return route(4, e, None, addr(k == 37))
+            return route(2, e, None, addr(k == 51), [rng.randrange(1, 2 ** 20)], has_ip=k != 35)
+        for target, ok in size_targets(ctx):
+            for kind in ('reach', 'unreach'):
+                nhv = addr()
+                if nhv[0] == 6:
+                    nhv = (6, nhv[1] | 1 << 100)
+                room = target - (3 if kind == 'unreach' else 5 + (4 if nhv[0] == 4 else 16))
+                ks = fill_sizes(room, [19, 25, 27, 31, 35, 37, 39, 51], rng)
+                add(kind, [sized_route(k) for k in ks], nhv)
+                cases[-1]['huge'] = target > 60000
+                if not ok:
+                    cases[-1]['unencodable'] = 'attribute value of %d octets' % target
         return cases
 
     @staticmethod
